@@ -178,12 +178,19 @@ def nodes_as(which, labels):
 def cc_outcome(adj, kind, labels, nkind=None):
     from pyrepseq.clustering import graph_clustering
     nodes = nodes_as(len(adj) % 4 if nkind is None else nkind, labels)
+    held = adj_as(kind, adj)
+    snap = held.copy() if isinstance(held, np.ndarray) else None
+    if snap is not None and len(adj) % 3 == 0:
+        held.setflags(write=False)          # a neighbour list the caller cannot write to (a view of a table): reading is all that is needed
     if nkind is not None and len(adj) % 2:
-        g = call_impl(lambda: graph_clustering(nodes=nodes, adjacency_matrix=adj_as(kind, adj), clustering='cc'))
+        g = call_impl(lambda: graph_clustering(nodes=nodes, adjacency_matrix=held, clustering='cc'))
     else:
-        g = call_impl(lambda: graph_clustering(adj_as(kind, adj), nodes, 'cc'))
+        g = call_impl(lambda: graph_clustering(held, nodes, 'cc'))
     if g[0] != 'ok':
         return g
+    if snap is not None and not np.array_equal(held, snap):
+        # the caller's neighbour list is an input: it holds the same triplets afterwards (seeded change C15-r9m1: rows sorted in place)
+        return ('exc', 'ArgumentModified: the neighbour array handed in was changed by the call (first rows now %s, were %s)' % (held[:3].tolist(), snap[:3].tolist()))
     try:
         return ('ok', label_clusters(frame_pairs(g[1])))
     except Exception as e:
@@ -1224,6 +1231,38 @@ def hc_column_order(ctx):
             return
 
 
+def hc_index_independence(ctx):
+    """(c) rows are rows: a table whose index is permuted / made of strings / repeated clusters exactly as the same rows under the default index,
+    also with the all-CDR metrics, which look the CDR1 / CDR2 loops up from each row's V allele (seeded change C15-r9m3: the looked-up loops
+    put back under a fresh 0..n-1 index, so that a re-indexed table gets other rows' loops)."""
+    import pyrepseq.distance as ds
+    from pyrepseq.metric.tcr_metric import CdrLevenshtein, BetaCdrLevenshtein, AlphaCdrLevenshtein
+    rng = ctx.rng
+    trav = ['TRAV1-1*01', 'TRAV12-1*01', 'TRAV21*01', 'TRAV8-4*01', 'TRAV38-1*01']
+    trbv = ['TRBV7-9*01', 'TRBV20-1*01', 'TRBV5-1*01', 'TRBV2*01', 'TRBV28*01']
+    for it in range(3 if ctx.quick else 24):
+        n = rng.randint(4, 8)
+        base = pd.DataFrame(dict(TRAV=[rng.choice(trav) for _ in range(n)], CDR3A=(small_repertoire(rng, n) * n)[:n], TRAJ=['TRAJ1*01'] * n,
+                                 TRBV=[rng.choice(trbv) for _ in range(n)], CDR3B=(small_repertoire(rng, n) * n)[:n], TRBJ=['TRBJ1-1*01'] * n))
+        perm = list(range(n))
+        rng.shuffle(perm)
+        idx = [perm, ['r%d' % i for i in perm], [i // 2 for i in range(n)]][it % 3]
+        other = base.copy()
+        other.index = idx
+        mk = [CdrLevenshtein, BetaCdrLevenshtein, AlphaCdrLevenshtein][it % 3]
+        lk, ck = dict(method=['average', 'single', 'complete'][it % 3]), dict(t=rng.randint(2, 12), criterion='distance')
+        a = call_impl(lambda: ds.hierarchical_clustering(base, mk(), dict(lk), dict(ck)))
+        b = call_impl(lambda: ds.hierarchical_clustering(other, mk(), dict(lk), dict(ck)))
+        ctx.count('hc:all-CDR metric, re-indexed table = default-index table')
+        ctx.case(nontrivial_key=('hc-index', str(base.values.tolist()), str(idx), mk.__name__))
+        same = a[0] == b[0] and (a[0] != 'ok' or (np.array_equal(np.asarray(a[1][0]), np.asarray(b[1][0])) and np.array_equal(np.asarray(a[1][1]), np.asarray(b[1][1]))))
+        if not same or a[0] != 'ok':
+            ctx.violation('property', 'hierarchical_clustering(table, %s(), %s, %s) on rows %s: with the index %s the result is %s, with the default index %s' %
+                          (mk.__name__, lk, ck, base.values.tolist(), idx, str(b)[:300], str(a)[:300]),
+                          dict(part='hc-index', rows=base.values.tolist(), index=[str(x) for x in idx], metric=mk.__name__), site='distance.hierarchical_clustering')
+            return
+
+
 def hc_extras(ctx, nrounds):
     """(c) over what the older loop leaves out: further containers, a caller-defined Metric with non-integer / very large distances,
     chain weights, the metric handed over positionally or with the legacy pair tuple, partial option dicts (SciPy's own defaults apply to
@@ -1624,6 +1663,7 @@ def run(ctx):
     hc_refill_table(ctx, 3 if q else 24)
     hc_strings_as_given(ctx)
     hc_column_order(ctx)
+    hc_index_independence(ctx)
     if len(ctx.violations) > 8:
         return
     sl_extras(ctx, 6 if q else 36)
